@@ -6,7 +6,7 @@ import json, os, pty, random, re, select, subprocess, sys, time
 VERIF = os.path.dirname(os.path.dirname(os.path.abspath(__file__)))
 BUILD = os.path.join(VERIF, ".build")
 BIN = os.path.join(BUILD, "pastel-target", "release", "pastel")
-MODEL = os.path.join(VERIF, "lean", ".lake", "build", "bin", "pastel-model")
+MODEL = os.environ.get("VERIF_MODEL_EXE") or os.path.join(VERIF, "lean", ".lake", "build", "bin", "pastel-model")
 ESC = b"\x1b"
 
 
@@ -252,6 +252,9 @@ def check_reset_discipline(res, out, site, inp):
 # ------------------------------------------------------------------------------------------ C13
 
 def c13(res, tier, seed, lib):
+    # `paint` with colour off (a pipe) against the Lean CLI model: the text comes out byte for byte,
+    # foreground / background are still validated, `default`, `-`, --no-newline
+    modelled_family(res, random.Random(seed + 77), ['paint'], 120 if tier != "thorough" else 1500)
     rnd = random.Random(seed)
     flags = [[], ["-f"], ["-m", "24bit"], ["-m", "8bit"], ["-m", "off"], ["-m", "auto"]]
     pcms = [None, "24bit", "truecolor", "8bit", "off", "", "junk"]
@@ -464,6 +467,9 @@ def case_oracle(res, site, argv_fn, values, stdin=None):
 # ------------------------------------------------------------------------------------------ C17
 
 def c17(res, tier, seed, lib):
+    # `sort-by` (deterministic keys) against the Lean CLI model: colours as arguments / '-' / stdin lines incl.
+    # unreadable ones (then nothing is printed), --unique, --reverse
+    modelled_family(res, random.Random(seed + 77), ['sort-by'], 150 if tier != "thorough" else 2000)
     rnd = random.Random(seed)
     n_lists = 4000 if tier == "thorough" else 260
     keys = ["brightness", "luminance", "hue", "chroma"]
@@ -883,7 +889,7 @@ def stdin_script(rnd):
 
 def modelled_case(rnd, subs=None):
     sub = rnd.choice(subs or ["color", "lighten", "darken", "saturate", "desaturate", "rotate", "complement", "to-gray", "textcolor",
-                              "colorblind", "set", "format", "mix", "color", "format", "set"])
+                              "colorblind", "set", "format", "mix", "color", "format", "set", "gray", "gradient", "sort-by", "paint"])
     if sub in ("lighten", "darken", "saturate", "desaturate"):
         cargs = [number_text(rnd, 0, 1)]
     elif sub == "rotate":
@@ -899,24 +905,52 @@ def modelled_case(rnd, subs=None):
     elif sub == "mix":
         base = rnd.choice([rand_color_text(rnd), rand_color_text(rnd), bad_color_text(rnd), "-"])
         cargs = [base, number_text(rnd, 0, 1), rnd.choice(["Lab", "LCh", "RGB", "HSL", "OkLab", "lab", "rgb", "oklab", "Rgb", "LCH", "hSL", "OKLAB", "lch", "LAB"])]
+    elif sub == "gray":
+        cargs = [number_text(rnd, 0, 1)]
+    elif sub == "gradient":
+        cargs = [rnd.choice(["2", "3", "5", "7", "12", "+4", "1", "0", "-1", "2.0", "x", "", "03", " 3", "18446744073709551616"]),
+                 rnd.choice(["Lab", "LCh", "RGB", "HSL", "OkLab", "lab", "rgb", "oklab", "hsl", "LCH"])]
+    elif sub == "sort-by":
+        cargs = [rnd.choice(["brightness", "luminance", "hue", "chroma"]), rnd.choice(["0", "0", "1"]), rnd.choice(["0", "0", "1"])]
+    elif sub == "paint":
+        cargs = [rnd.choice([rand_color_text(rnd), rand_color_text(rnd), "default", " default ", "-", bad_color_text(rnd)]),
+                 rnd.choice(["", "", rand_color_text(rnd), bad_color_text(rnd), "-"]), rnd.choice(["0", "0", "1"])]
     else:
         cargs = []
     ncol = rnd.choice([0, 0, 1, 1, 2, 3, 6])
-    if sub == "mix" and ncol == 0:
-        ncol = 1
+    if sub == "gray":
+        ncol = 0
+    if sub == "gradient":
+        ncol = rnd.choice([1, 2, 2, 3, 4, 5])
+    if sub == "paint":
+        ncol = rnd.choice([1, 1, 2, 3])
     colors = []
     for _ in range(ncol):
         k = rnd.randrange(10)
         colors.append(bad_color_text(rnd) if k == 0 else ("-" if k == 1 else rand_color_text(rnd)))
     colors = [c for c in colors if c == "-" or not c.startswith("-")]
-    if sub == "mix" and not colors:
+    if sub == "gradient" and not colors:
         colors = ["red"]
+    if sub == "paint":
+        # the words of the text (no leading dash, not empty: clap would read options / drop them)
+        colors = [rnd.choice(["hello", "wörld", "a b", "x", "1", "red", "pick", "🎨", "tab\tbed"]) for _ in range(ncol)]
     # an empty colour argument is fine for clap (positional, explicit empty string)
     data, desc = stdin_script(rnd)
     if sub == "mix":
         argv = ["mix", "-f", cargs[1], "-s", cargs[2], cargs[0]] + colors
         if (cargs[1].startswith("-") and not is_number(cargs[1])) or cargs[0].startswith("-") and cargs[0] != "-":
             argv = None
+    elif sub == "gradient":
+        argv = ["gradient", "-n", cargs[0], "-s", cargs[1]] + colors
+        if cargs[0].startswith("-") and not is_number(cargs[0]):
+            argv = None
+    elif sub == "sort-by":
+        argv = ["sort-by", cargs[0]] + (["-u"] if cargs[1] == "1" else []) + (["-r"] if cargs[2] == "1" else []) + colors
+    elif sub == "paint":
+        if (cargs[0].startswith("-") and cargs[0] != "-") or (cargs[1].startswith("-") and cargs[1] != "-"):
+            argv = None
+        else:
+            argv = ["paint"] + (["-o", cargs[1]] if cargs[1] != "" else []) + (["-n"] if cargs[2] == "1" else []) + [cargs[0]] + colors
     else:
         argv = [sub] + cargs + colors
         if any(a.startswith("-") and a != "-" and not is_number(a) for a in cargs):
@@ -937,10 +971,11 @@ def modelled_family(res, rnd, subs, n):
         if argv is None:
             continue
         rc, out, err = run_cli(argv, stdin=data)
-        generic_oracle(res, argv, rc, out, err)
+        generic_oracle(res, argv, rc, out, err, allow_partial_line=(argv[0] == "paint" and "-n" in argv))
         cls, msg = classify_stderr(err)
         res.case(op, True)
         res.tag("modelled:" + argv[0])
+        res.tag("modelled:%s:%s" % (argv[0], "ok" if rc == 0 else (cls or "rc%d" % rc)))
         impl = "ok %d %s %s %s" % (rc, hexs(out), cls or "-", hexs(msg or ""))
         ops.append(op); meta.append((op, argv, impl))
     for (op, argv, impl), mo in zip(meta, model_batch(ops)):
@@ -1004,7 +1039,7 @@ def c19(res, tier, seed, lib):
         if argv is None:
             continue
         rc, out, err = run_cli(argv, stdin=data)
-        generic_oracle(res, argv, rc, out, err)
+        generic_oracle(res, argv, rc, out, err, allow_partial_line=(argv[0] == "paint" and "-n" in argv))
         cls, msg = classify_stderr(err)
         res.case(op, True)
         res.tag("modelled:" + argv[0]); res.tag("modelled:rc=%s" % rc)
@@ -1275,7 +1310,7 @@ def c09(res, tier, seed, lib):
     """`pastel to-gray` / `pastel textcolor` hand every colour to the library functions: the printed
     gray is achromatic with the input's luminance (within one gray step), grays stay, and the text
     colour is black or white with contrast >= 4.5."""
-    modelled_family(res, random.Random(seed + 77), ['to-gray', 'textcolor'], 80 if tier != "thorough" else 1000)
+    modelled_family(res, random.Random(seed + 77), ['to-gray', 'textcolor', 'gray'], 100 if tier != "thorough" else 1200)
     rnd = random.Random(seed)
     n = 60 if tier != "thorough" else 1200
     texts = near_gray_texts(rnd, n) + [rand_color_text(rnd) for _ in range(n)] + ["#%02x%02x%02x" % (g, g, g) for g in range(0, 256, 5 if tier != "thorough" else 1)]
@@ -1634,6 +1669,9 @@ def c20(res, tier, seed, lib):
 # ------------------------------------------------------------------------------------------ C08
 
 def c08(res, tier, seed, lib):
+    # `gradient` against the Lean CLI model: count and colour-count validation, colours as arguments or '-',
+    # error order, N lines
+    modelled_family(res, random.Random(seed + 77), ['gradient'], 150 if tier != "thorough" else 2000)
     rnd = random.Random(seed)
     spaces = ["rgb", "hsl", "lab", "lch", "oklab"]
     spell = {"rgb": ["rgb", "RGB", "Rgb", "rGb"], "hsl": ["hsl", "HSL", "Hsl"], "lab": ["lab", "Lab", "LAB"], "lch": ["lch", "LCh", "LCH", "Lch"],
